@@ -168,7 +168,7 @@ func (ex *expected) assumption(unit string) benchmath.Assumption {
 	return benchmath.AssumeNothing
 }
 
-var csvWarnRe = regexp.MustCompile(`^[A-Z]+[0-9]+: (.*)$`)
+var csvWarnRe = regexp.MustCompile(`^[A-Z]+([0-9]+): (.*)$`)
 
 func relClose(a, b float64) bool {
 	return a == b || math.Abs(a-b) <= 1e-12*math.Max(math.Abs(a), math.Abs(b))
@@ -220,6 +220,7 @@ func c14Check(c statCase) (v vcase.Verdict) {
 		return
 	}
 	var wantWarn []string
+	var wantWarnLine []int // the output line (spreadsheet row) each expected warning refers to
 	ncells, nbaseline, ncolsMax, nrowsMax := 0, 0, 0, 0
 	for _, tb := range ex.tables {
 		k := refproj.CanonMap(tb.tuple.FieldMap()) + "#" + tb.unit
@@ -383,11 +384,12 @@ func c14Check(c statCase) (v vcase.Verdict) {
 			}
 			st := stats[key]
 			want := []string{fmt.Sprint(st.sum.Center), st.sum.PctRangeString()}
+			cellLine := gt.RowLine[rowIdx[key[0]]]
 			for _, w := range st.sum.Warnings {
-				wantWarn = append(wantWarn, w.Error())
+				wantWarn, wantWarnLine = append(wantWarn, w.Error()), append(wantWarnLine, cellLine)
 			}
 			if diff := ex.ctx.ResidueDiff(cell.results); len(diff) > 0 {
-				wantWarn = append(wantWarn, "benchmarks vary in "+strings.Join(diff, ", "))
+				wantWarn, wantWarnLine = append(wantWarn, "benchmarks vary in "+strings.Join(diff, ", ")), append(wantWarnLine, cellLine)
 				v.Label("residue_warning")
 			}
 			if key[1] != baseCanon {
@@ -406,7 +408,7 @@ func c14Check(c statCase) (v vcase.Verdict) {
 						return
 					}
 					for _, w := range cmp.Warnings {
-						wantWarn = append(wantWarn, w.Error())
+						wantWarn, wantWarnLine = append(wantWarn, w.Error()), append(wantWarnLine, cellLine)
 					}
 				}
 			}
@@ -477,7 +479,7 @@ func c14Check(c statCase) (v vcase.Verdict) {
 				}
 			} else {
 				v.Label("geomean_nonpositive")
-				wantWarn = append(wantWarn, "summaries must be >0 to compute geomean")
+				wantWarn, wantWarnLine = append(wantWarn, "summaries must be >0 to compute geomean"), append(wantWarnLine, gt.GeoLine)
 				if g[0] != "" {
 					fail("table %s column %q: geomean %q although a center is not positive", k, tb.cols[ck].Vals, g[0])
 					return
@@ -485,7 +487,7 @@ func c14Check(c statCase) (v vcase.Verdict) {
 			}
 			if ck != baseCanon {
 				if nBase != nboth {
-					wantWarn = append(wantWarn, "benchmark set differs from baseline; geomeans may not be comparable")
+					wantWarn, wantWarnLine = append(wantWarn, "benchmark set differs from baseline; geomeans may not be comparable"), append(wantWarnLine, gt.GeoLine)
 					v.Label("benchmark_set_differs")
 				}
 				wantR := "?"
@@ -504,7 +506,7 @@ func c14Check(c statCase) (v vcase.Verdict) {
 					if ok {
 						wantR = fmt.Sprintf("%+.2f%%", (math.Exp(m/float64(len(ratios)))-1)*100)
 					} else {
-						wantWarn = append(wantWarn, "ratios must be >0 to compute geomean")
+						wantWarn, wantWarnLine = append(wantWarn, "ratios must be >0 to compute geomean"), append(wantWarnLine, gt.GeoLine)
 					}
 				}
 				if g[1] != wantR {
@@ -567,10 +569,10 @@ func c14Check(c statCase) (v vcase.Verdict) {
 			fail("unexpected line on stderr: %q", line)
 			return
 		}
-		gotWarn = append(gotWarn, normWarning(m[1]))
+		gotWarn = append(gotWarn, "row "+m[1]+": "+normWarning(m[2]))
 	}
 	for i := range wantWarn {
-		wantWarn[i] = normWarning(wantWarn[i])
+		wantWarn[i] = fmt.Sprintf("row %d: %s", wantWarnLine[i], normWarning(wantWarn[i]))
 	}
 	sort.Strings(gotWarn)
 	sort.Strings(wantWarn)
